@@ -344,6 +344,10 @@ func (fc *FnCtx) applyContract(con *FuncContract, name string, c *ssa.CallCommon
 	}
 	if con.Opts["mayblock"] != "" {
 		fc.blockingPoint("call:"+name, pos)
+	} else if con.Iface && (strings.Count(name, ".") == 1 || fc.mayBlock(name)) {
+		// a method of one of the package's own interfaces is a call into the implementation (a callback):
+		// it may block or call back into the library, so no mutex may be held; likewise transport I/O
+		fc.blockingPoint("call:"+name, pos)
 	}
 	pre := fc.heap
 	// frame
